@@ -203,7 +203,7 @@ def scenarios(tier):
             for rk in (3, -2, 0):
                 add('%s/f-rank%d/%s' % (ctag, rk, tag), shape, tl, f={pos: [M(carrier, [P('rank', sp_rank(rk))])]})
             add('%s/f-rank-method/%s' % (ctag, tag), shape, tl, f={pos: [M(carrier, [P('rank', sp_rank(-1)), P('method', sp_method('cmp_m')), P('ignore', sp_notflag('ignore'))])],
-                                                                     (0, 0): [M(carrier, [P('rank', sp_rank(7))])]})
+                                                                     (0, 0): [M(carrier, [P('rank', sp_rank(0))])]})
             if len(cfg) == 1:
                 add('%s/bound/%s' % (ctag, tag), shape, [M(cfg[0], [P('bound', sp_bound(['T: Ord']))])])
                 add('%s/boundoff/%s' % (ctag, tag), shape, [M(cfg[0], [P('bound', SP_BOUND_OFF)])])
